@@ -4,8 +4,8 @@ from common import *
 import decl, gen, pktcases, pktprops
 
 PID = 'C14'
-TARGETS = ['Properties/C14.vo', 'Bridge/DataBridge.vo', 'Bridge/MoveBridge.vo', 'Bridge/IntBridge.vo', 'Bridge/CodegenBridge.vo']
-KERNELS = ['G8_data', 'G3_move', 'G4_seq', 'G6_int', 'G11_codegen']
+TARGETS = ['Properties/C14.vo', 'Bridge/DataBridge.vo', 'Bridge/MoveBridge.vo', 'Bridge/IntBridge.vo', 'Bridge/CodegenBridge.vo', 'Bridge/PlumbingBridge.vo']
+KERNELS = ['G8_data', 'G3_move', 'G4_seq', 'G6_int', 'G11_codegen', 'G17_builder']
 PROP_FILE = 'Properties/C14.v'
 
 
